@@ -1,0 +1,66 @@
+//go:build verif
+
+package fasthttp
+
+// Thin pass-through wrappers for the redirect checks (property C20), compiled only with -tags verif.
+// They add no behaviour: every function forwards to the unexported code it names.
+
+// VerifDefaultMaxRedirectsCount exposes the unexported constant.
+const VerifDefaultMaxRedirectsCount = defaultMaxRedirectsCount
+
+// VerifGetRedirectURL runs getRedirectURL on a pooled URI exactly like doRequestFollowRedirects does and
+// returns the new URL string together with what the trust decision looks at (redirectURI.Host()) and the
+// scheme of the resolved URI.
+func VerifGetRedirectURL(baseURL string, location []byte, disablePathNormalizing bool) (url string, hostPort, scheme []byte) {
+	u := AcquireURI()
+	url = getRedirectURL(baseURL, location, disablePathNormalizing, u)
+	hostPort = append([]byte(nil), u.Host()...)
+	scheme = append([]byte(nil), u.Scheme()...)
+	ReleaseURI(u)
+	return url, hostPort, scheme
+}
+
+// VerifShouldStripSensitiveHeadersOnRedirect exposes shouldStripSensitiveHeadersOnRedirect.
+func VerifShouldStripSensitiveHeadersOnRedirect(initialHost, redirectHostPort []byte) bool {
+	return shouldStripSensitiveHeadersOnRedirect(initialHost, redirectHostPort)
+}
+
+// VerifHostnameFromURLString exposes hostnameFromURLString.
+func VerifHostnameFromURLString(url string) []byte {
+	return append([]byte(nil), hostnameFromURLString(url)...)
+}
+
+// VerifHostnameFromHostPortBytes exposes hostnameFromHostPortBytes.
+func VerifHostnameFromHostPortBytes(hostPort []byte) []byte {
+	return append([]byte(nil), hostnameFromHostPortBytes(append([]byte(nil), hostPort...))...)
+}
+
+// VerifIsDomainOrSubdomainBytes exposes isDomainOrSubdomainBytes.
+func VerifIsDomainOrSubdomainBytes(sub, parent []byte) bool { return isDomainOrSubdomainBytes(sub, parent) }
+
+// VerifSplitHostPortBytes exposes splitHostPortBytes.
+func VerifSplitHostPortBytes(hostPort []byte) (host, port []byte) {
+	h, p := splitHostPortBytes(append([]byte(nil), hostPort...))
+	return append([]byte(nil), h...), append([]byte(nil), p...)
+}
+
+// VerifStripSensitiveHeadersOnRedirect runs stripSensitiveHeadersOnRedirect against a URI whose host is hostPort.
+func VerifStripSensitiveHeadersOnRedirect(req *Request, initialHost, hostPort []byte) {
+	u := AcquireURI()
+	u.host = append(u.host[:0], hostPort...)
+	stripSensitiveHeadersOnRedirect(req, initialHost, u)
+	ReleaseURI(u)
+}
+
+// VerifParseURLHost parses url the way Request.parseURI does for a client request whose request URI is a full
+// URL (URI.parse with an empty Host header) and returns the scheme and host Client.Do would act on and whether
+// the URL carries a user name (Request.Write turns it into an Authorization header).
+func VerifParseURLHost(url []byte) (scheme, host []byte, userinfo bool, err error) {
+	u := AcquireURI()
+	err = u.parse(nil, url, false)
+	scheme = append([]byte(nil), u.Scheme()...)
+	host = append([]byte(nil), u.Host()...)
+	userinfo = len(u.username) > 0
+	ReleaseURI(u)
+	return scheme, host, userinfo, err
+}
